@@ -4,6 +4,7 @@
 From Coq Require Import ZArith List.
 From Verif Require Import Lib.Params Spec.Edwards Model.Outcome Model.BabyJub Model.Eddsa
   Proofs.EddsaProofs.
+From Verif Require Proofs.GapEddsa Proofs.EddsaPoseidon Proofs.EddsaInstances Spec.PoseidonRef Spec.MiMC7Spec.
 From Verif Require Gen.BigIntRoutines Proofs.BigIntEqVerify.
 Import ListNotations.
 Local Open Scope Z_scope.
@@ -47,8 +48,29 @@ Proof.
   exact (conj (BigIntEqVerify.gen_babyjub_PublicKey_VerifyPoseidon_eq p5) (BigIntEqVerify.gen_babyjub_PublicKey_VerifyMimc7_eq m7)).
 Qed.
 
+(* UNCONDITIONAL instances: the two verification functions of the library, digest = reference *)
+Theorem C03_VerifyPoseidon_iff : forall A msg R8 Sv,
+  oc A -> canonical q A -> oc R8 -> canonical q R8 -> 0 <= msg < q -> 0 <= Sv < l ->
+  (VerifyPoseidon EddsaPoseidon.poseidon5 A msg (R8, Sv) = Ok tt <->
+   smul Sv B8 = add R8 (smul (8 * PoseidonRef.poseidon_hash_ref [fst R8; snd R8; fst A; snd A; msg] 0) A)).
+Proof. exact GapEddsa.VerifyPoseidon_iff. Qed.
+
+Theorem C03_VerifyMimc7_iff : forall A msg R8 Sv,
+  oc A -> canonical q A -> oc R8 -> canonical q R8 -> 0 <= msg < q -> 0 <= Sv < l ->
+  (VerifyMimc7 EddsaInstances.mimc7h A msg (R8, Sv) = Ok tt <->
+   smul Sv B8 = add R8 (smul (8 * MiMC7Spec.spec_hash [fst R8; snd R8; fst A; snd A; msg] None) A)).
+Proof. exact GapEddsa.VerifyMimc7_iff. Qed.
+
+(* never a panic, for ALL arguments *)
+Theorem C03_verifiers_never_panic :
+  (forall A msg R8 Sv, VerifyPoseidon EddsaPoseidon.poseidon5 A msg (R8, Sv) <> Panic) /\
+  (forall A msg R8 Sv, VerifyMimc7 EddsaInstances.mimc7h A msg (R8, Sv) <> Panic).
+Proof. exact (conj GapEddsa.VerifyPoseidon_never_panics GapEddsa.VerifyMimc7_never_panics_all). Qed.
+
 Print Assumptions C03_verify_iff.
 Print Assumptions C03_never_panics.
 Print Assumptions C03_digest_error_rejected.
 Print Assumptions C03_altered_S_rejected.
 Print Assumptions C03_model_is_the_source.
+Print Assumptions C03_VerifyMimc7_iff.
+Print Assumptions C03_verifiers_never_panic.
